@@ -10,8 +10,9 @@ Entry points exercised (implementation side):
   SettingsInversion, or through a pushed general.yaml overlay: the repository's config is what decides when the argument is None).
 
 Every floating-point *decision* of the solver (sign of the warm-start solution, s <= tol, max w > tol, arg-max runner-up,
-d <= tol after the alpha step) is re-computed exactly (fractions) by `Mirror`; a case with a decision closer than 1e-6 to
-its threshold is skipped and counted (kind `band`)."""
+d <= tol after the alpha step) is re-computed exactly (fractions) by `Mirror`; for a case with a decision closer than 1e-6 to
+its threshold (every exactly symmetric system) the comparison with the model is waived and only the specification is evaluated, in Coq,
+on the implementation's output (kind `...:speconly`, Coq wrapper KSpec; counts per reason in the evidence)."""
 import os, atexit, shutil, tempfile, random
 import numpy as np
 from fractions import Fraction
@@ -22,7 +23,7 @@ GEN = []
 PROPS = "Props/C05.v"
 COQ_CHECK = ("Model.C05", "check")
 COQ_FALLBACK = None
-COQ_IMPORTS = "From PAV Require Import Base.NumOps."
+COQ_IMPORTS = "From PAV Require Import Base.NumOps Model.C05Chol."
 SHARD = 40
 EXHAUSTIVE = {}
 RULE = ("SPD systems A = Z^T Z (+ R) + k I, n = 1..8, integer or quarter entries, right-hand sides b of four classes (positive, zero-mean, "
@@ -32,34 +33,56 @@ RULE = ("SPD systems A = Z^T Z (+ R) + k I, n = 1..8, integer or quarter entries
         "regularization, 1-pixel mappers, singular systems) and over Imaging + Rectangular mappers (mapping and w-tilde formalisms, "
         "3x3 / 1x3 / 3x1 signed PSFs, negative data) for all use_positive_only_solver x positive_only_uses_p_initial x "
         "force_edge_pixels_to_zeros (+ force_edge_image_pixels_to_zeros); settings given explicitly or through a pushed "
-        "general.yaml. Non-trivial = the unconstrained solution has at least one negative and one positive entry (the active set "
+        "general.yaml. Phase 2 streams: exactly symmetric / degenerate SPD systems (mirror pairs, exchangeable triples, self-mirrored "
+        "parameters, A = S + P S P, duplicate columns; two thirds selected by the exact mirror to delete >= 2 passive entries in one "
+        "fix_constraint step) through fnnls_cholesky (cold / production warm start / masks), reconstruction_positive_only_from and "
+        "aa.Inversion (identity-mapping mapper; left-right symmetric Imaging on Rectangular meshes, corpus seeds); linear_obj_list orders "
+        "fm, fmf, ffm, mfm, fmm, mf, fmfm, m with both forced lists non-empty (mock and Rectangular mappers). Cases with a decision on a "
+        "tie are evaluated specification-only (KSpec), never dropped. Non-trivial = the unconstrained solution has at least one negative and one positive entry (the active set "
         "is neither empty nor full) or the case is an Inversion; distinct = distinct JSON input.")
 TRUSTED = ["hand-written Gallina model coq/Model/C05.v (active-set loops of fnnls.py, wrappers of inversion_util.py / abstract.py), tied to "
            "/repo by this correspondence run: implementation output vs exact rational model output, |diff| <= 1e-9 max(1,|model|), "
            "evaluated inside Coq by vm_compute, plus the KKT / normal-equation certificate evaluated on the implementation's output",
            "scipy.linalg.solve(assume_a='pos'), scipy.linalg.cholesky/cho_solve, numpy.linalg.solve = the exact solve of the system they "
-           "are given (modelled by Gaussian elimination, proved sound in Coq); the rank-one Cholesky updates of cholesky_funcs.py by "
-           "their contract U^T U = A[P_inorder, P_inorder], asserted numerically on every call the implementation makes during the run",
+           "are given (modelled by Gaussian elimination, proved sound in Coq); the Cholesky updates of cholesky_funcs.py are modelled "
+           "(Model/C05Chol.v) and proved to preserve U^T U = A[P_inorder, P_inorder]; the contract is also asserted numerically on every call "
+           "the implementation makes during the run, and a sample of the calls is replayed in Coq (KChol cases)",
            "Python-side exact mirror (fractions) used only to measure decision margins; never used to decide agreement",
-           "doubles: systems are small integers / quarters; comparisons under tolerance, decisions kept >= 1e-6 from thresholds"]
+           "doubles: systems are small integers / quarters; comparisons under tolerance; where a decision lies within 1e-6 of its threshold only the "
+           "specification (KKT certificate, tolerance 1e-8 max(1,|b|)) is evaluated on the implementation's output"]
 ASSUMPTIONS = ["real arithmetic (no rounding); theorems over R", "termination of the active-set loops is not proved (explicit fuel = the code's "
                "10000-iteration guards)", "w-tilde mapped data (unique mappings + convolution) is correspondence-only"]
 
 EPS = 2.2204e-16
 BAND = Fraction(1, 10 ** 6)
-STATS = {"band": 0, "chol_contract_calls": 0, "chol_contract_max_residual": 0.0, "solver_runs": 0, "runs_with_prune_step": 0,
-         "runs_with_inner_fix_step": 0, "runs_with_2plus_inner_fix_steps": 0, "outer_iterations": 0}
+STATS = {"chol_contract_calls": 0, "chol_contract_max_residual": 0.0, "solver_runs": 0, "runs_with_prune_step": 0,
+         "runs_with_inner_fix_step": 0, "runs_with_2plus_inner_fix_steps": 0, "runs_with_multi_delete_step_exact": 0, "outer_iterations": 0,
+         # measured on the implementation (wrapper around the choldeleteindexes that fnnls.py calls)
+         "chol_cases_in_coq": 0, "chol_calls_too_deep_for_coq": 0, "impl_solver_runs_watched": 0, "impl_delete_calls": 0, "impl_delete_calls_2plus": 0, "impl_runs_deleting_2plus_in_one_step": 0,
+         "impl_runs_deleting_3plus_in_one_step": 0, "impl_max_deleted_in_one_step": 0,
+         "glue_cases_nonmapper_before_mapper": 0, "glue_cases_nonmapper_before_mapper_with_forced_edge_and_zero_lists": 0,
+         "glue_..._of_which_rectangular_mappers": 0, "glue_..._of_which_mock_mappers": 0}
+CHOL_BUDGET = [120]     # number of Cholesky-update calls turned into Coq cases (set per tier by gen_inputs)
+SKIPPED = {}        # reason -> number of cases not evaluated at all
+SPEC_ONLY = {}      # reason -> number of cases where only the specification was evaluated on the implementation's output (KSpec)
+def note(d, reason): d[reason] = d.get(reason, 0) + 1
 def tally(m):
     STATS["solver_runs"] += 1; STATS["outer_iterations"] += m.n_outer
     if m.n_prune: STATS["runs_with_prune_step"] += 1
     if m.n_inner: STATS["runs_with_inner_fix_step"] += 1
     if m.n_inner >= 2: STATS["runs_with_2plus_inner_fix_steps"] += 1
+    if m.n_multi: STATS["runs_with_multi_delete_step_exact"] += 1
 
 def extra_evidence():
-    return {"skipped_in_band": STATS["band"], "cholesky_contract_calls": STATS["chol_contract_calls"],
+    return {"skipped_by_reason": dict(SKIPPED), "skipped_total": sum(SKIPPED.values()),
+            "spec_only_by_reason": dict(SPEC_ONLY), "spec_only_total": sum(SPEC_ONLY.values()),
+            "cholesky_contract_calls": STATS["chol_contract_calls"], "cholesky_update_calls_checked_in_coq": STATS["chol_cases_in_coq"],
+            "cholesky_delete_calls_not_replayed_in_coq_more_than_3_rotations": STATS["chol_calls_too_deep_for_coq"],
             "cholesky_contract_max_residual": STATS["chol_contract_max_residual"],
             "branch_tally": {k: STATS[k] for k in ("solver_runs", "runs_with_prune_step", "runs_with_inner_fix_step",
-                                                   "runs_with_2plus_inner_fix_steps", "outer_iterations")}}
+                                                   "runs_with_2plus_inner_fix_steps", "runs_with_multi_delete_step_exact", "outer_iterations")},
+            "implementation_delete_tally": {k: STATS[k] for k in STATS if k.startswith("impl_")},
+            "glue_order_tally": {k: STATS[k] for k in STATS if k.startswith("glue_")}}
 
 # --------------------------------------------------------------------------------------------- exact mirror (margins only)
 def gauss(A, b):
@@ -77,7 +100,7 @@ def gauss(A, b):
 
 class Mirror:
     """exact re-execution of fnnls_cholesky that records the distance of every decision from its threshold"""
-    def __init__(self): self.margin = Fraction(10 ** 9); self.n_prune = 0; self.n_inner = 0; self.n_outer = 0
+    def __init__(self): self.margin = Fraction(10 ** 9); self.n_prune = 0; self.n_inner = 0; self.n_outer = 0; self.n_multi = 0
     def dec(self, x, thr):
         self.margin = min(self.margin, abs(Fraction(x) - Fraction(thr)))
     def sub_solve(self, A, b, idx):
@@ -136,6 +159,7 @@ class Mirror:
                 d = [d[i] + alpha * (s[i] - d[i]) for i in range(n)]
                 for i in Pin:
                     if d[i] != 0: self.dec(d[i], tau)     # an exact 0 is the alpha arg-min: noise of either sign ends up deleted
+                if sum(1 for i in Pin if d[i] <= tau) >= 2: self.n_multi += 1
                 Pin = [i for i in Pin if not d[i] <= tau]
                 P = [P[i] and not d[i] <= tau for i in range(n)]
                 if Pin:
@@ -165,7 +189,7 @@ def margin_pos_only(A, b, uses_p):
         for x in u: m.dec(x, 0)
         pinit = [x > 0 for x in u]
     m.fnnls(A, b, tau, pinit)
-    if m.margin >= BAND: tally(m)
+    tally(m)
     return m.margin
 
 # --------------------------------------------------------------------------------------------- Coq printing
@@ -190,8 +214,29 @@ def Sv(v): return [str(F(x)) for x in v]
 # --------------------------------------------------------------------------------------------- Cholesky contract watcher
 class CholWatch:
     """wraps the factor updates used by fnnls_cholesky: after each call, U'^T U' must equal the bordered / deleted Gram matrix"""
-    def __init__(self):
-        self.bad = None
+    def __init__(self, record=True):
+        self.bad = None; self.deleted = []; self.cases = []; self.record = record
+    def tri(self, U):
+        """upper-triangular factor -> its rows from the diagonal on, as Coq rationals (Model/C05Chol.v)"""
+        U = np.asarray(U, dtype=float)
+        return clist([clist([cq(frac(v)) for v in U[r, r:]]) for r in range(U.shape[0])])
+    def keep(self, kind, U0, arg, out, multi=False):
+        """record the call as a Coq case (model of the update vs implementation; contract evaluated in Coq): the first insertion, the
+        first deletion and every deletion of >= 2 indexes of a run (at most 4 per run), factors up to 7 x 7, while the budget lasts"""
+        if not self.record or CHOL_BUDGET[0] <= 0 or U0.shape[0] > 7 or U0.shape[0] == 0: return
+        n_kind = sum(1 for c in self.cases if c[0] == kind)
+        if len(self.cases) >= 4 or (n_kind >= 1 and not multi): return
+        if kind == "del":       # every rotation of _cholupdate takes a square root of the previous results: the exact rationals of the
+            # model grow about five-fold in size per rotation (1000 s for 5 rotations), so only calls with at most 3 rotations are replayed in Coq
+            size = U0.shape[0]; rot = 0
+            for i in sorted(arg, reverse=True): rot += size - 1 - i; size -= 1
+            if rot > 3: STATS["chol_calls_too_deep_for_coq"] += 1; return
+        out = np.asarray(out, dtype=float)
+        if out.ndim != 2 or out.shape[0] != out.shape[1] or not np.all(np.isfinite(out)): return     # shape / nan: reported by `note`
+        CHOL_BUDGET[0] -= 1; STATS["chol_cases_in_coq"] += 1
+        if kind == "ins": self.cases.append((kind, f"(KChol (KIns {self.tri(U0)} {cqv([frac(v) for v in arg])} {self.tri(out)}))"))
+        else: self.cases.append((kind, f"(KChol (KDel {self.tri(U0)} {clist([cnat(i) for i in arg])} {self.tri(out)}))"))
+    def coq_cases(self): return [c[1] for c in self.cases]
     def __enter__(self):
         import autoarray.util.fnnls as fm
         self.fm = fm; self.orig = (fm.cholinsertlast, fm.choldeleteindexes)
@@ -204,15 +249,17 @@ class CholWatch:
                 G = U0.T @ U0; m = G.shape[0]
                 want = np.zeros((m + 1, m + 1)); want[:m, :m] = G; want[:m, m] = x[:m]; want[m, :m] = x[:m]; want[m, m] = x[m]
                 watch.note(np.asarray(S_), want)
+                watch.keep("ins", U0, x, S_)
             return S_
         def dele(*a, **k):
-            try: U0 = np.array(a[0], dtype=float); idx = [int(i) for i in a[1]]
+            try: U0 = np.array(a[0], dtype=float); idx = [int(i) for i in a[1]]; watch.deleted.append(len(idx))
             except Exception: U0 = None
             S_ = watch.orig[1](*a, **k)
             if U0 is not None and k == {} and len(a) == 2:
                 G = U0.T @ U0
                 want = np.delete(np.delete(G, idx, axis=0), idx, axis=1)
                 watch.note(np.asarray(S_), want)
+                watch.keep("del", U0, idx, S_, multi=len(idx) >= 2)
             return S_
         fm.cholinsertlast, fm.choldeleteindexes = ins, dele
         return self
@@ -227,6 +274,11 @@ class CholWatch:
             self.bad = f"U^T U differs from A[P,P] by {r} (below-diagonal {lower})"
     def __exit__(self, *a):
         self.fm.cholinsertlast, self.fm.choldeleteindexes = self.orig
+        STATS["impl_solver_runs_watched"] += 1
+        STATS["impl_delete_calls"] += len(self.deleted); STATS["impl_delete_calls_2plus"] += sum(1 for k in self.deleted if k >= 2)
+        if any(k >= 2 for k in self.deleted): STATS["impl_runs_deleting_2plus_in_one_step"] += 1
+        if any(k >= 3 for k in self.deleted): STATS["impl_runs_deleting_3plus_in_one_step"] += 1
+        STATS["impl_max_deleted_in_one_step"] = max([STATS["impl_max_deleted_in_one_step"]] + self.deleted)
 
 # --------------------------------------------------------------------------------------------- generators
 def rand_entry(rng, quarters, lo=-3, hi=3):
@@ -278,8 +330,153 @@ def rand_rhs(rng, A, quarters=False, cls=None):
     if cls == "sparse": return [rand_entry(rng, quarters, -6, 6) if rng.random() < 0.5 else Fraction(0) for _ in range(n)]
     return [rand_entry(rng, quarters, -9, 9) for _ in range(n)]
 
+def is_spd(A):
+    """exact: all pivots of the elimination without row exchanges are positive"""
+    n = len(A); M = [list(map(Fraction, r)) for r in A]
+    for c in range(n):
+        if M[c][c] <= 0: return False
+        for r in range(c + 1, n):
+            f = M[r][c] / M[c][c]
+            if f: M[r] = [a - f * x for a, x in zip(M[r], M[c])]
+    return True
+
+def orbit_system(rng):
+    """Exactly symmetric SPD system.  The parameters are partitioned into orbits of size 1, 2 or 3 (mirror pairs / exchangeable triples and
+    self-mirrored parameters), randomly embedded in 0..n-1; A and b are invariant under the symmetry, so the members of an orbit have equal
+    sub-solutions at every symmetric state of the solver and reach zero SIMULTANEOUSLY (several passive entries deleted in one
+    fix_constraint step).  `mirror`: pairs only, and the coupling of two pairs distinguishes i-j from i-j' (invariance under ONE involution
+    only: A = S + P S P).  Low-norm self-mirrored parameters strongly coupled to heavy pairs make the pairs leave when they enter.
+    b = A d0 + small symmetric perturbation with d0 >= 0 on the pairs: mixed-sign, noise-dominated right-hand sides included."""
+    mirror = rng.random() < 0.5
+    sizes = [rng.choice([2] if mirror else [2, 2, 2, 3]) for _ in range(rng.randint(1, 3))] + [1] * rng.randint(1, 2)
+    rng.shuffle(sizes)
+    orb = []
+    for k, g in enumerate(sizes): orb += [(k, t) for t in range(g)]
+    n = len(orb); K = len(sizes)
+    pos = list(range(n)); rng.shuffle(pos)
+    q = rng.random() < 0.3
+    def ent(lo, hi): return rand_entry(rng, q, lo, hi)
+    diag = [ent(1, 3) if sizes[k] == 1 else ent(4, 12) for k in range(K)]
+    within = [Fraction(0) if sizes[k] == 1 else ent(-2, 8) for k in range(K)]
+    cp = {}; cx = {}
+    for k in range(K):
+        for l in range(k + 1, K):
+            if sizes[k] == 1 or sizes[l] == 1: v = ent(1, 3) if rng.random() < 0.8 else ent(-2, 2)
+            else: v = ent(-1, 2)
+            cp[(k, l)] = v
+            cx[(k, l)] = ent(-1, 2) if (mirror and sizes[k] == 2 and sizes[l] == 2) else v
+    A = [[Fraction(0)] * n for _ in range(n)]
+    for i, (k, t) in enumerate(orb):
+        for j, (l, u) in enumerate(orb):
+            if i == j: v = diag[k]
+            elif k == l: v = within[k]
+            else:
+                kk, ll = (k, l) if k < l else (l, k)
+                v = cp[(kk, ll)] if (t == u or sizes[k] != sizes[l]) else cx[(kk, ll)]
+            A[pos[i]][pos[j]] = v
+    tries = 0
+    while not is_spd(A):
+        for i, (k, t) in enumerate(orb):
+            if sizes[k] > 1: A[pos[i]][pos[i]] += 1
+        tries += 1
+        if tries > 40: return None
+    dP = [Fraction(rng.randint(1, 3)) if sizes[k] > 1 and rng.random() < 0.8 else Fraction(0) for k in range(K)]
+    dv = [Fraction(0)] * n
+    for i, (k, t) in enumerate(orb): dv[pos[i]] = dP[k]
+    bo = []
+    for k in range(K):
+        i0 = pos[[i for i, (kk, t) in enumerate(orb) if kk == k][0]]
+        base = sum(A[i0][j] * dv[j] for j in range(n))
+        if sizes[k] > 1: bo.append((base + (ent(-1, 1) if rng.random() < 0.3 else 0)) if dP[k] else ent(-9, 3))
+        else: bo.append(ent(-9, 9) if rng.random() < 0.3 else base + ent(0, 6))
+    b = [Fraction(0)] * n
+    for i, (k, t) in enumerate(orb): b[pos[i]] = Fraction(bo[k])
+    return A, b
+
+def mirror_system(rng):
+    """A = S + P S P, b = c + P c for a random SPD S, a random involution P (mirror pairs + self-mirrored parameters) and a mixed-sign c;
+    with probability 1/3 two columns are exact duplicates up to the ridge term (A[i][:] = A[j][:] off the diagonal)"""
+    n = rng.choice([3, 4, 5, 5, 6, 7, 7, 8])
+    perm = list(range(n)); idx = list(range(n)); rng.shuffle(idx)
+    nfix = rng.choice([0, 1, 1, 2])
+    if (n - nfix) % 2: nfix += 1
+    rest = idx[min(nfix, n):]
+    for a_, b_ in zip(rest[0::2], rest[1::2]): perm[a_] = b_; perm[b_] = a_
+    q = rng.random() < 0.3
+    if rng.random() < 1 / 3:      # duplicate columns: Z has the same column at every mirror pair
+        m = rng.randint(2, n + 1)
+        Z = [[Fraction(0)] * n for _ in range(m)]
+        for j in range(n):
+            if perm[j] >= j:
+                col = [rand_entry(rng, q) for _ in range(m)]
+                for r in range(m): Z[r][j] = col[r]; Z[r][perm[j]] = col[r]
+        k = Fraction(rng.choice([1, 1, 2]), rng.choice([1, 2, 4]))
+        A = [[sum(Z[r][i] * Z[r][j] for r in range(m)) + (k if i == j else 0) for j in range(n)] for i in range(n)]
+    else:
+        S_ = rand_spd(rng, n, q, rng.choice(["gram", "corr", "corr", "corr", "band", "lap"]))
+        A = [[S_[i][j] + S_[perm[i]][perm[j]] for j in range(n)] for i in range(n)]
+    c = rand_rhs(rng, A, q, rng.choice(["noise", "noise", "noise", "zero", "sparse", "neg"]))
+    b = [c[i] + c[perm[i]] for i in range(n)]
+    return A, b
+
+def multi_delete_exact(A, b):
+    """does the exact mirror delete >= 2 passive entries in one fix_constraint step, with the cold or the production warm start?"""
+    n = len(b); tau = Fraction(EPS * n); hit = False
+    u = gauss(A, b)
+    for pinit in (None, [x > 0 for x in u]):
+        if pinit is not None and not any(pinit): continue
+        m = Mirror(); m.fnnls(A, b, tau, pinit)
+        hit = hit or m.n_multi > 0
+    return hit
+
+def sym_systems(rng, count):
+    """`count` symmetric systems, two thirds of them selected (by the exact mirror, not by the implementation) to delete several
+    passive entries in one step; the others are unselected members of both families"""
+    out = 0; tries = 0
+    want_multi = (2 * count) // 3
+    while out < want_multi and tries < 40 * count:
+        tries += 1
+        r = orbit_system(rng)
+        if r is None or not multi_delete_exact(*r): continue
+        out += 1; yield r
+    while out < count:
+        r = mirror_system(rng) if rng.random() < 0.6 else orbit_system(rng)
+        if r is None: continue
+        out += 1; yield r
+
+ORDERS = ["fm", "fmf", "ffm", "mfm", "fmm", "mf", "fmfm", "m"]     # f = non-mapper linear object (function list), m = mapper
+
 def gen_inputs(tier, rng):
     big = tier == "thorough"
+    CHOL_BUDGET[0] = 600 if big else 60
+    # ---- the glue layer: every order of mappers / non-mapper objects with non-empty forced lists (mock objects, then Rectangular mappers)
+    for i in range(160 if big else 24):
+        yield gen_mock_order(rng, ORDERS[i % len(ORDERS)], i)
+    for i in range(32 if big else 5):
+        yield {"op": "real", "seed": rng.randrange(10 ** 9), "w_tilde": i % 3 == 2, "pos": True, "pinit": i % 2 == 0, "force": True,
+               "two": False, "mockreg": True, "order": ["fm", "fmf", "mfm", "ffm", "fmm"][i % 5], "edge_image": i % 4 != 3}
+    # ---- exactly symmetric / degenerate systems: ties in every decision, several passive entries deleted in one step
+    for i, (A, b) in enumerate(sym_systems(rng, 300 if big else 36)):
+        n = len(b); u = gauss(A, b)
+        warm = [bool(x > 0) for x in u]
+        starts = [{"kind": "none"}, {"kind": "mask", "mask": warm}]
+        if i % 3 == 0: starts.append({"kind": "mask", "mask": [True] * n})
+        elif i % 3 == 1: starts.append({"kind": "mask", "mask": [rng.random() < 0.6 for _ in range(n)]})
+        for st in starts:
+            yield {"op": "fnnls", "A": S(A), "b": Sv(b), "start": st, "sym": True}
+        if i % 3 == 2:
+            for uses_p in (True, False):
+                yield {"op": "posonly", "A": S(A), "b": Sv(b), "uses_p": uses_p, "sym": True}
+        if i % 3 == 0:       # the same system through the public entry point: one mapper with the identity mapping matrix on n image
+            # pixels, identity PSF, unit noise and regularization matrix A - I, data b: curvature_reg_matrix = A, data_vector = b
+            R = [[A[r][c] - (1 if r == c else 0) for c in range(n)] for r in range(n)]
+            I_ = [[Fraction(1 if r == c else 0) for c in range(n)] for r in range(n)]
+            yield {"op": "mock", "npix": n, "objs": [{"params": n, "mapper": True, "M": S(I_), "reg": S(R), "edge": []}], "data": Sv(b),
+                   "noise": Sv([1] * n), "order": "sym", "settings": {"pos": True, "pinit": i % 2 == 0, "force": False, "edge_image": False,
+                                                                    "source_zero": [], "via_config": i % 4 == 3, "check": True}}
+    for i in range(16 if big else 3):     # left-right symmetric data on an odd-width rectangular mesh, light regularization
+        yield {"op": "real", "seed": rng.randrange(10 ** 9), "w_tilde": i % 2 == 1, "pos": True, "pinit": i % 3 != 2, "force": False,
+               "two": False, "mockreg": False, "sym": True}
     # ---- the solver routine on arbitrary SPD systems
     for i in range(1600 if big else 110):
         n = rng.choice([1, 2, 2, 3, 3, 4, 4, 5, 5, 6, 7, 8]) if big else rng.choice([1, 2, 3, 3, 4, 4, 5, 6, 7])
@@ -366,6 +563,41 @@ def gen_mock_inversion(rng, i):
     if not st["edge_image"]: st["source_zero"] = []
     return {"op": "mock", "npix": npix, "objs": objs, "data": Sv(data), "noise": Sv(noise), "settings": st}
 
+def gen_mock_order(rng, order, i):
+    """aa.Inversion over mock objects in a prescribed order, positive-only solver with BOTH forced lists non-empty: every mapper has
+    edge pixels and receives a non-zero mapping from one of the image pixels in image_pixels_source_zero"""
+    npix = rng.randint(4, 7)
+    q = i % 4 == 0
+    source_zero = sorted(set(rng.randrange(npix) for _ in range(rng.randint(1, 2))))
+    edge_image = i % 5 != 4
+    objs = []
+    for ch in order:
+        mapper = ch == "m"
+        p = rng.randint(2, 4) if mapper else rng.randint(1, 3)
+        M = [[(rand_entry(rng, q, 0, 3) if rng.random() < 0.8 else rand_entry(rng, q, -2, -1)) if rng.random() < 0.65 else Fraction(0)
+              for _ in range(p)] for _ in range(npix)]
+        edge = []
+        if mapper:
+            edge = sorted(rng.sample(range(p), rng.randint(1, p - 1)))
+            free = [j for j in range(p) if j not in edge]
+            j0 = rng.choice(free)                       # a non-edge pixel fed by a source-zero image pixel: only the zero list forces it
+            M[rng.choice(source_zero)][j0] = Fraction(rng.randint(1, 3))
+            if len(free) > 1:                           # and one that nothing forces
+                j1 = rng.choice([j for j in free if j != j0])
+                for r in source_zero: M[r][j1] = Fraction(0)
+                M[rng.choice([r for r in range(npix) if r not in source_zero])][j1] = Fraction(rng.randint(1, 3))
+        R = rand_spd(rng, p, False, rng.choice(["lap", "band", "diag"])) if (mapper or rng.random() < 0.6) else None
+        objs.append({"params": p, "mapper": mapper, "M": S(M), "reg": S(R) if R is not None else None, "edge": edge})
+    cls = rng.choice(["pos", "pos", "noise", "noise", "zero"])
+    if cls == "pos": data = [Fraction(rng.randint(1, 6)) for _ in range(npix)]
+    elif cls == "zero":
+        data = [Fraction(rng.randint(-4, 4)) for _ in range(npix)]; data[-1] = -sum(data[:-1])
+    else: data = [rand_entry(rng, q, -6, 6) for _ in range(npix)]
+    noise = [Fraction(rng.choice([1, 1, 2, Fraction(1, 2)])) for _ in range(npix)] if rng.random() < 0.4 else [Fraction(1)] * npix
+    st = {"pos": True, "pinit": i % 2 == 0, "force": True, "edge_image": edge_image, "source_zero": source_zero if edge_image else [],
+          "via_config": i % 6 == 5, "check": True}
+    return {"op": "mock", "npix": npix, "objs": objs, "data": Sv(data), "noise": Sv(noise), "settings": st, "order": order}
+
 # --------------------------------------------------------------------------------------------- configuration overlays
 _CFG = {}
 _CFG_ROOT = None
@@ -389,16 +621,37 @@ def push_config(pos, pinit, check=True):
     assert (g["use_positive_only_solver"], g["positive_only_uses_p_initial"], g["check_reconstruction"]) == key
 
 # --------------------------------------------------------------------------------------------- cases
-def band_row(kind, why=""):
-    STATS["band"] += 1
-    return {"coq": None, "out": "skipped: a decision lies within 1e-6 of its threshold " + why, "py_ok": None, "kind": "band:" + kind,
-            "nontrivial": False}
+def skip_row(kind, reason):
+    """the case is not evaluated at all (counted per reason in the evidence: skipped_by_reason)"""
+    note(SKIPPED, reason)
+    return {"coq": None, "out": "skipped: " + reason, "py_ok": None, "kind": "skipped:" + kind, "nontrivial": False}
 
+def spec_only(coq, reason):
+    """a decision of the solver lies on / within 1e-6 of a tie (exactly symmetric or degenerate systems), or the system is too
+    ill-conditioned for the 1e-9 comparison: the model-vs-implementation comparison is waived, the SPECIFICATION is still evaluated on
+    the implementation's output -- the KKT certificate must hold whatever tie-break was used (counted: spec_only_by_reason)"""
+    if reason is None: return coq
+    note(SPEC_ONLY, reason)
+    return f"(KSpec {coq})"
+
+TIE = "a solver decision lies within 1e-6 of a tie"
+ILL = "ill-conditioned system (cond > 1e5): 1e-9 comparison with the exact solve not meaningful"
+COST = "more than 10 free parameters with non-dyadic entries (Constant regularization adds 1e-8): exact rational run of the model too slow"
+def cond_of(A):
+    if not A: return 1.0
+    c = np.linalg.cond(np.array([[float(x) for x in r] for r in A]))
+    return float(c) if np.isfinite(c) else float("inf")
 def ill_conditioned(A):
     """the 1e-9 comparison of a double solve with the exact one is only meaningful for cond(A) << 1e7 (singular: handled by the caller)"""
-    if not A: return False
-    c = np.linalg.cond(np.array([[float(x) for x in r] for r in A]))
+    c = cond_of(A)
     return bool(np.isfinite(c) and c > 1e5)
+def cert_swamped(A, b, res):
+    """ill-conditioned systems only: is the rounding error of the gradient of the returned vector (n eps |A| |s|) within a factor 100 of the
+    certificate's tolerance 1e-8 max(1, |b|)?  (then the certificate says nothing; the case is skipped and counted)"""
+    if res[0] != "ok" or not A: return False
+    amax = max(abs(float(x)) for r in A for x in r); smax = max([abs(float(x)) for x in res[1]] + [0.0])
+    bmax = max([1.0] + [abs(float(x)) for x in b])
+    return len(b) * 2.3e-16 * amax * smax * 100 > 1e-8 * bmax
 
 def nontrivial_system(A, b):
     u = gauss(A, b)
@@ -428,29 +681,32 @@ def run_fnnls(aa, inp):
         if len(st["index"]) == 0: pinit = None
         else: pinit = [j in st["index"] for j in range(n)]
         arg = np.array(st["index"], dtype=int)
-    if ill_conditioned(A): return band_row("fnnls", "(ill-conditioned system: cond > 1e5)")
     m = Mirror(); m.fnnls(A, b, Fraction(EPS * n), pinit)
-    if m.margin < BAND: return band_row("fnnls")
     tally(m)
-    with CholWatch() as cw:
+    why = ILL if ill_conditioned(A) else (TIE if m.margin < BAND else None)
+    with CholWatch(record=why != ILL) as cw:
         res = out_vec(call(fnnls.fnnls_cholesky, flm(A), np.array(fl(b)), arg))
-    coq = f"(KFnnls {cqm(A)} {cqv(b)} {cq(F(EPS))} {copt(pinit, cbools)} {cres_vec(res)})"
-    return {"coq": coq, "out": show(res), "py_ok": (False if cw.bad else None), "detail": cw.bad, "kind": "fnnls:" + st["kind"],
+    if why == ILL and cert_swamped(A, b, res): return skip_row("fnnls", "ill-conditioned and rounding error of the certificate near its tolerance")
+    coq = spec_only(f"(KFnnls {cqm(A)} {cqv(b)} {cq(F(EPS))} {copt(pinit, cbools)} {cres_vec(res)})", why)
+    return {"coq": coq, "extra_coq": cw.coq_cases(), "out": show(res), "py_ok": (False if cw.bad else None), "detail": cw.bad,
+            "kind": "fnnls:" + st["kind"] + (":sym" if inp.get("sym") else "") + (":speconly" if why else ""),
             "nontrivial": nontrivial_system(A, b)}
 
 def run_posonly(aa, inp):
     from autoarray.inversion.inversion import inversion_util
     A, b = mats(inp); n = len(b)
-    if ill_conditioned(A): return band_row("posonly", "(ill-conditioned system: cond > 1e5)")
     mg = margin_pos_only(A, b, inp["uses_p"])
-    if mg is None or mg < BAND: return band_row("posonly")
+    if mg is None: return skip_row("posonly", "exact system singular (outside the SPD quantifier)")
+    why = ILL if ill_conditioned(A) else (TIE if mg < BAND else None)
     settings = aa.SettingsInversion(positive_only_uses_p_initial=inp["uses_p"])
-    with CholWatch() as cw:
+    with CholWatch(record=why != ILL) as cw:
         res = out_vec(call(inversion_util.reconstruction_positive_only_from, data_vector=np.array(fl(b)),
                            curvature_reg_matrix=flm(A) if n else np.zeros((0, 0)), settings=settings))
-    coq = f"(KPosOnly {cqm(A)} {cqv(b)} {cq(F(EPS))} {cbool(inp['uses_p'])} {cres_vec(res)})"
-    return {"coq": coq, "out": show(res), "py_ok": (False if cw.bad else None), "detail": cw.bad,
-            "kind": "posonly:" + ("warm" if inp["uses_p"] else "cold"), "nontrivial": n > 0 and nontrivial_system(A, b)}
+    if why == ILL and cert_swamped(A, b, res): return skip_row("posonly", "ill-conditioned and rounding error of the certificate near its tolerance")
+    coq = spec_only(f"(KPosOnly {cqm(A)} {cqv(b)} {cq(F(EPS))} {cbool(inp['uses_p'])} {cres_vec(res)})", why)
+    return {"coq": coq, "extra_coq": cw.coq_cases(), "out": show(res), "py_ok": (False if cw.bad else None), "detail": cw.bad,
+            "kind": "posonly:" + ("warm" if inp["uses_p"] else "cold") + (":sym" if inp.get("sym") else "") + (":speconly" if why else ""),
+            "nontrivial": n > 0 and nontrivial_system(A, b)}
 
 def allclose_margin_ok(s, ranges):
     """the np.allclose decisions (|x - x0| <= 1e-8 + 1e-5 |x0|) must be clear-cut: exact equality or a factor 100 away"""
@@ -467,7 +723,8 @@ def run_posneg(aa, inp):
     A, b = mats(inp)
     ranges = [list(r) for r in inp["ranges"]]
     u = gauss(A, b)
-    if u is not None and not allclose_margin_ok(u, ranges): return band_row("posneg")
+    why = None
+    if u is not None and not allclose_margin_ok(u, ranges): why = "np.allclose decision of the all-equal check within a factor 100 of its threshold"
     check = bool(inp["check"])
     if inp.get("via_config"):
         push_config(True, True, check=check); force = False
@@ -477,9 +734,9 @@ def run_posneg(aa, inp):
                        mapper_param_range_list=ranges, force_check_reconstruction=force))
     push_config(True, True, check=True)
     cr = clist([ctup([cnat(r[0]), cnat(r[1])]) for r in ranges])
-    coq = f"(KPosNeg {cqm(A)} {cqv(b)} {cr} {cbool(check)} {cres_vec(res)})"
+    coq = spec_only(f"(KPosNeg {cqm(A)} {cqv(b)} {cr} {cbool(check)} {cres_vec(res)})", why)
     return {"coq": coq, "out": show(res), "py_ok": None, "kind": "posneg:" + ("singular" if u is None else "regular") +
-            (":raise" if res[0] == "raise" else ""), "nontrivial": u is not None}
+            (":raise" if res[0] == "raise" else "") + (":speconly" if why else ""), "nontrivial": u is not None}
 
 def cobj(params, mapper, edge, M):
     return f"(@mkobj QOps {cnat(params)} {cbool(mapper)} {clist([cnat(e) for e in edge])} {cqm(M)})"
@@ -503,23 +760,42 @@ def inversion_rows(aa, inv, objs_desc, st, kind, nontrivial=True):
                     forced |= {j + off for j in range(o["params"]) if any(o["Mq"][r][j] != 0 for r in st["source_zero"])}
             off += o["params"]
     kept = [i for i in range(n) if i not in forced]
-    if ill_conditioned([[A[i][j] for j in kept] for i in kept]): return band_row(kind, "(ill-conditioned system: cond > 1e5)")
-    if st["pos"]:
-        mg = margin_pos_only([[A[i][j] for j in kept] for i in kept], [b[i] for i in kept], st["pinit"])
-        if mg is None or mg < BAND: return band_row(kind)
+    Ak = [[A[i][j] for j in kept] for i in kept]
+    why = ILL if ill_conditioned(Ak if st["pos"] else A) else None       # (an exactly singular system has cond = inf: not "ill", see below)
+    costly = st["pos"] and len(kept) > 10 and max([x.denominator for r in Ak for x in r] + [1]) > 2 ** 30
+    if costly:        # neither the exact mirror (margins) nor the model is run; a singular system is recognised by its condition number
+        if not np.isfinite(cond_of(Ak)): return skip_row(kind, "exact system singular (outside the SPD quantifier)")
+        why = why or COST
+    elif st["pos"]:
+        mg = margin_pos_only(Ak, [b[i] for i in kept], st["pinit"])
+        if mg is None: return skip_row(kind, "exact system singular (outside the SPD quantifier)")
+        if mg < BAND and why is None: why = TIE
     else:
         u = gauss(A, b)
         ranges = []; off = 0
         for o in objs_desc:
             if o["mapper"]: ranges.append([off, off + o["params"]])
             off += o["params"]
-        if u is not None and not allclose_margin_ok(u, ranges): return band_row(kind)
-    with CholWatch() as cw:
+        if u is not None and not allclose_margin_ok(u, ranges) and why is None:
+            why = "np.allclose decision of the all-equal check within a factor 100 of its threshold"
+    # glue-layer coverage: a non-mapper linear object precedes a mapper, and the forced lists are non-empty
+    seen_func = False; order_hit = False
+    for o in objs_desc:
+        if not o["mapper"]: seen_func = True
+        elif seen_func: order_hit = True
+    if order_hit:
+        STATS["glue_cases_nonmapper_before_mapper"] += 1
+        zero_list = any(o["mapper"] and any(o["Mq"][r][j] != 0 for r in st["source_zero"] for j in range(o["params"])) for o in objs_desc)
+        if st["pos"] and st["force"] and st["edge_image"] and any(o["mapper"] and o["edge"] for o in objs_desc) and zero_list:
+            STATS["glue_cases_nonmapper_before_mapper_with_forced_edge_and_zero_lists"] += 1
+            STATS["glue_..._of_which_" + ("rectangular_mappers" if kind.startswith("real") else "mock_mappers")] += 1
+    with CholWatch(record=why not in (ILL, COST)) as cw:
         res = out_vec(call(lambda: inv.reconstruction))
     cobjs = clist([cobj(o["params"], o["mapper"], o["edge"], o["Mq"]) for o in objs_desc])
     cs = cset(st["pos"], st["pinit"], st["force"], st["edge_image"], st["source_zero"], st["check"])
-    coq = f"(KRecon {cs} {cobjs} {cqm(A)} {cqv(b)} {cq(F(EPS))} {cres_vec(res)})"
-    extra = []; py_ok = False if cw.bad else None; detail = cw.bad
+    if why == ILL and cert_swamped(A, b, res): return skip_row(kind, "ill-conditioned and rounding error of the certificate near its tolerance")
+    coq = spec_only(f"(KRecon {cs} {cobjs} {cqm(A)} {cqv(b)} {cq(F(EPS))} {cres_vec(res)})", why)
+    extra = cw.coq_cases(); py_ok = False if cw.bad else None; detail = cw.bad
     out = {"reconstruction": show(res)}
     if res[0] == "ok":
         s = res[1]
@@ -538,7 +814,7 @@ def inversion_rows(aa, inv, objs_desc, st, kind, nontrivial=True):
             py_ok = False; detail = "dictionary keys are not the linear objects in order"
     return {"coq": coq, "extra_coq": extra, "out": out, "py_ok": py_ok, "detail": detail,
             "kind": kind + (":pos" if st["pos"] else ":posneg") + (":force" if st["pos"] and st["force"] else "")
-                    + (":raise" if res[0] == "raise" else ""), "nontrivial": nontrivial}
+                    + (":raise" if res[0] == "raise" else "") + (":speconly" if why else ""), "nontrivial": nontrivial}
 
 def make_settings(aa, st, use_w_tilde):
     if st.get("via_config"):
@@ -571,52 +847,73 @@ def run_mock(aa, inp):
         desc.append({"params": o["params"], "mapper": o["mapper"], "edge": list(o["edge"]), "Mq": M})
     settings = make_settings(aa, st, use_w_tilde=False)
     inv = aa.Inversion(dataset=ds, linear_obj_list=objs, settings=settings)
-    row = inversion_rows(aa, inv, desc, st, "mock")
+    row = inversion_rows(aa, inv, desc, st, "mock" + (":" + inp["order"] if inp.get("order") else ""))
     push_config(True, True, True)
     return row
 
 def run_real(aa, inp):
     rng = random.Random(inp["seed"])
+    sym = bool(inp.get("sym"))          # left-right mirror symmetric mask, data, noise map and PSF; odd-width mesh
     kh, kw = rng.choice([(3, 3), (3, 3), (1, 3), (3, 1), (1, 1)])
     H = rng.randint(kh + 3, 8); W = rng.randint(kw + 3, 8)
+    if inp.get("size"): H, W = inp["size"]
     m = np.ones((H, W), dtype=bool)
     for y in range(kh // 2 + 0, H - kh // 2):
         for x in range(kw // 2, W - kw // 2):
-            if 1 <= y < H - 1 and 1 <= x < W - 1 and rng.random() < 0.7: m[y, x] = False
+            if 1 <= y < H - 1 and 1 <= x < W - 1 and rng.random() < (0.85 if sym else 0.7): m[y, x] = False
     if m.all(): m[H // 2, W // 2] = False
-    mask = aa.Mask2D(mask=m, pixel_scales=1.0)
-    cls = rng.choice(["pos", "noise", "noise", "neg"])
+    cls = rng.choice(["pos", "noise", "noise", "neg"]) if not sym else "noise"
     vals = np.array([[rng.randint(-6, 6) if cls == "noise" else (rng.randint(0, 6) if cls == "pos" else -rng.randint(0, 6))
                       for _ in range(W)] for _ in range(H)], dtype=float)
     noise = np.array([[rng.choice([1.0, 1.0, 2.0, 0.5]) for _ in range(W)] for _ in range(H)])
     K = [[float(rng.randint(-1, 3)) for _ in range(kw)] for _ in range(kh)]
     K[kh // 2][kw // 2] = float(rng.randint(2, 4))
+    if inp.get("blur"): K = [[float(rng.randint(1, 3)) for _ in range(kw)] for _ in range(kh)]      # broad all-positive PSF: correlated columns
+    if sym:
+        m = m & m[:, ::-1]
+        vals = vals + vals[:, ::-1]; noise = np.maximum(noise, noise[:, ::-1])
+        K = [[K[r][c] + K[r][kw - 1 - c] for c in range(kw)] for r in range(kh)]
+    mask = aa.Mask2D(mask=m, pixel_scales=1.0)
     ds = aa.Imaging(data=aa.Array2D.no_mask(values=vals, pixel_scales=1.0), noise_map=aa.Array2D.no_mask(values=noise, pixel_scales=1.0),
                     psf=aa.Kernel2D.no_mask(values=K, pixel_scales=1.0, normalize=False), use_normalized_psf=False,
                     over_sampling=aa.OverSamplingDataset(pixelization=aa.OverSamplingUniform(sub_size=rng.choice([1, 2, 2]))))
     import io, contextlib, logging
     logging.disable(logging.CRITICAL)
     ds = ds.apply_mask(mask=mask)
-    st = {"pos": inp["pos"], "pinit": inp["pinit"], "force": inp["force"], "edge_image": False, "source_zero": [],
+    npix = int(np.sum(~m))
+    st = {"pos": inp["pos"], "pinit": inp["pinit"], "force": inp["force"], "edge_image": bool(inp.get("edge_image")), "source_zero": [],
           "via_config": False, "check": True}
-    mappers = []; desc = []
-    for t in range(2 if inp["two"] else 1):
-        shape = rng.choice([(3, 3), (4, 3), (3, 4), (4, 4)]) if inp.get("mockreg") else (3, 3)
+    if st["edge_image"]: st["source_zero"] = sorted(set(rng.randrange(npix) for _ in range(rng.randint(1, 2))))
+    order = inp.get("order") or ("mm" if inp["two"] else "m")
+    objs = []; mappers = []; desc = []
+    for ch in order:
+        if ch == "f":        # a non-mapper linear object (list of linear functions) with its own small regularisation matrix
+            p_ = rng.randint(1, 3)
+            Mf = [[Fraction(rng.randint(0, 2)) if rng.random() < 0.6 else Fraction(0) for _ in range(p_)] for _ in range(npix)]
+            Mf[rng.randrange(npix)][rng.randrange(p_)] = Fraction(1)
+            reg = aa.m.MockRegularization(regularization_matrix=flm(rand_spd(rng, p_, False, rng.choice(["diag", "band"]))))
+            objs.append(aa.m.MockLinearObjFuncList(parameters=p_, grid=aa.Grid2D.from_mask(mask=mask), mapping_matrix=flm(Mf), regularization=reg))
+            desc.append({"params": p_, "mapper": False, "edge": [], "Mq": Mf})
+            continue
+        if sym: shape = tuple(rng.choice(inp.get("shapes") or [(3, 3), (3, 3), (4, 3), (3, 5), (4, 5), (5, 3)]))
+        else: shape = rng.choice([(3, 3), (4, 3), (3, 4), (4, 4)] + ([(3, 5), (5, 3)] if inp.get("order") else [])) if inp.get("mockreg") else (3, 3)
         mesh = aa.mesh.Rectangular(shape=shape)
         os_ = ds.grids.pixelization.over_sampler
         mg = mesh.mapper_grids_from(mask=mask, border_relocator=None, source_plane_data_grid=os_.over_sampled_grid)
         if inp.get("mockreg"):     # integer regularisation matrix: the whole system stays small dyadic rationals (larger meshes affordable)
             p_ = shape[0] * shape[1]
             reg = aa.m.MockRegularization(regularization_matrix=flm(rand_spd(rng, p_, False, rng.choice(["lap", "band"]))))
+        elif sym: reg = aa.reg.Constant(coefficient=float(rng.choice(inp.get("coefs") or [0.25, 0.5, 0.5, 1.0])))      # light regularisation
         else: reg = aa.reg.Constant(coefficient=float(rng.choice([1, 2])))
         mapper = aa.Mapper(mapper_grids=mg, over_sampler=os_, regularization=reg)
-        mappers.append(mapper)
+        mappers.append(mapper); objs.append(mapper)
         desc.append({"params": int(mapper.params), "mapper": True, "edge": [int(e) for e in mapper.edge_pixel_list],
                      "Mq": [[frac(x) for x in r] for r in np.asarray(mapper.mapping_matrix, dtype=float)]})
     settings = make_settings(aa, st, use_w_tilde=inp["w_tilde"])
-    inv = aa.Inversion(dataset=ds, linear_obj_list=mappers, settings=settings)
+    inv = aa.Inversion(dataset=ds, linear_obj_list=objs, settings=settings)
     want = "InversionImagingWTilde" if inp["w_tilde"] else "InversionImagingMapping"
-    row = inversion_rows(aa, inv, desc, st, "real:" + ("wtilde" if inp["w_tilde"] else "mapping"))
+    row = inversion_rows(aa, inv, desc, st, "real:" + ("wtilde" if inp["w_tilde"] else "mapping") + (":sym" if sym else "")
+                         + (":" + inp["order"] if inp.get("order") else ""))
     # the loop over unique mappings (first stage of the w-tilde mapped data), for each mapper, on the reconstruction just obtained
     if row.get("coq"):
         try: srec = np.asarray(inv.reconstruction, dtype=float)
@@ -624,7 +921,8 @@ def run_real(aa, inp):
         if srec is not None:
             from autoarray.inversion.inversion import inversion_util
             off = 0
-            for mp in mappers:
+            for mp, o_ in zip(objs, desc):
+                if not o_["mapper"]: off += o_["params"]; continue
                 um = mp.unique_mappings
                 so = srec[off:off + int(mp.params)]; off += int(mp.params)
                 out = inversion_util.mapped_reconstructed_data_via_image_to_pix_unique_from(
